@@ -983,7 +983,7 @@ fn discharge_some(cx: &mut Ctx) {
 fn discharge_digits(cx: &mut Ctx) {
     let rule = "C03.D.digits";
     cx.rule(rule, "D.digits: in Lexer::lex_normal_number every `.unwrap()` on a conversion of the collected text (f64::from_str / str::parse) sits in the branch where the float part ('.', exponent letter, sign — the `if` whose body pushes non-digit characters onto the text) was NOT taken, so the text is what radix_run(10) returned; the conversion of a text with a float part goes through map_err(..)? instead");
-    cx.floor(rule, 2);
+    cx.floor(rule, 1);
     let Ok(lx) = sm::load(&cx.repo, "parser/src/lexer.rs") else { return cx.anchor_missing(rule, "parser/src/lexer.rs") };
     let Some(m) = lx.method("Lexer", "lex_normal_number") else { return cx.anchor_missing(rule, "Lexer::lex_normal_number") };
     // the float split: the outermost `if` whose then-branch pushes onto the text
